@@ -184,6 +184,19 @@ random | drift | forecaster).transform on a DataFrame, the statsmodels adapters'
 /repo commits b0033b3, c56874f, 6cfe0ff and now work on copies. -/
 def effectOf (_estimator _method _container : String) : Effect := .copies
 
+/-- ALL the arguments of one call (`fit(y, X, fh)`, `predict(fh, X)`, `fit(X, y)`, `transform(Z, X)`): each with the
+name of its container and its snapshot; the caller's objects after the call.  An exogenous frame handed to a
+forecaster, or the labels handed to a panel estimator, is the caller's data just as the first argument is. -/
+def callerAfterAll {V : Type} (estimator method : String) (args : List (String × ArgSnap V)) (result : V) :
+    List (String × ArgSnap V) :=
+  args.map (fun a => (a.1, callerAfter (effectOf estimator method a.1) a.2 result))
+
+/-- the same under an arbitrary table of effects (used to show that a site that writes through ANY of the
+arguments is visible in the comparison) -/
+def callerAfterAllWith {V : Type} (tbl : String → Effect) (args : List (String × ArgSnap V)) (result : V) :
+    List (String × ArgSnap V) :=
+  args.map (fun a => (a.1, callerAfter (tbl a.1) a.2 result))
+
 /-- the table as it stood for the ORIGINAL code (before b0033b3 / c56874f / 6cfe0ff); kept only so that
 the historical negation (`Props/C12: original_code_hampel_mutated_caller`) stays machine-checked -/
 def effectOfOriginal (estimator method container : String) : Effect :=
